@@ -884,6 +884,64 @@ def _hr_job(shape_t):
     return out
 
 
+def hr_reuse_pairs():
+    """(first formula, second formula): both are read by ONE HRParser object; the second reading must be what a
+    fresh parser gives - the first may use quoted symbols spelled like keywords, type names and operators"""
+    a, x, r = S("a"), S("x", INT), S("r", REAL)
+    F = lambda n, so=BOOL: S(n, so)
+    return [
+        (("And", F("True"), a), ("Or", a, ("lit", True, BOOL))),
+        (("Or", F("False"), ("Not", F("True"))), ("And", a, ("Or", ("lit", False, BOOL), ("lit", True, BOOL)))),
+        (("LT", F("Int", INT), ("lit", 2, INT)), ("Equals", ("Select", ("Array", ("type", INT), ("lit", 0, INT)), x), ("lit", 1, INT))),
+        (("LT", F("ToReal", INT), x), ("LT", ("ToReal", x), r)),
+        (("And", F("forall"), F("exists")), ("forall", [("a", BOOL)], ("exists", [("b", BOOL)], ("Or", a, S("b"))))),
+        (("Equals", F("Array", INT), F("BV", INT)), ("Equals", S("u", ("BV", 4)), ("lit", 3, ("BV", 4)))),
+        (("Iff", F("xor"), a), ("And", a, ("Not", S("b")))),
+        (("And", a, ("Not", S("b"))), ("Or", F("True"), a)),
+    ]
+
+
+def _hr_reuse_job(idx):
+    t1, t2 = hr_reuse_pairs()[idx]
+    shape = Shape(t2)
+    tag = "%s read after %s by the same parser object" % (repr(Shape(t2)), repr(Shape(t1)))
+
+    def call(w, it, f2):
+        f1 = proc.build_shape(w, t1)
+        txt1 = it.call(it.getattr(f1, "serialize"), [])
+        txt2 = it.call(it.getattr(f2, "serialize"), [])
+        HR = it.module_global(w.repo.modules["pysmt.parsing"], "HRParser")
+        hp = it.call(HR, [w.env])
+        out = []
+        for hp_, pre in ((hp, txt1), (it.call(HR, [w.env]), None)):
+            try:
+                if pre is not None:
+                    it.call(it.getattr(hp_, "parse"), [pre])
+                out.append(("ok", it.call(it.getattr(hp_, "parse"), [txt2])))
+            except AbsRaise as ex:
+                out.append(("raise", "%s%s" % (ex.cls_name, proc._args(ex))))
+        return (txt2, out)
+
+    def post(w, f, val, facts):
+        return proc.ProcResult(shape, "valid", (w, f, val))
+    res = proc.run_proc(shape, call, post=post, services="full", interp_kwargs=BIG, max_paths=8, world_cls=TextWorld)
+    r = res[0]
+    if len(res) != 1 or r.kind != "valid":
+        return (tag, "unsupported", "%s %s" % (r.kind, str(r.detail)[:200]))
+    w, f2, (txt2, (reused, fresh)) = r.detail
+    if reused[0] != fresh[0]:
+        return (tag, "invalid", "%r: the reused parser %s, a fresh parser %s" % (txt2, "raises " + str(reused[1]) if reused[0] == "raise" else "reads it",
+                                                                                  "raises " + str(fresh[1]) if fresh[0] == "raise" else "reads it"))
+    if reused[0] == "ok" and reused[1] is not fresh[1]:
+        return (tag, "invalid", "%r is read as %s by the reused parser and as %s by a fresh one"
+                % (txt2, sc.node_str(w, reused[1]) if w.is_node(reused[1]) else reused[1], sc.node_str(w, fresh[1]) if w.is_node(fresh[1]) else fresh[1]))
+    return (tag, "valid", "as a fresh parser")
+
+
+def hr_reuse_results(repo, tier="quick"):
+    return parallel_map(_hr_reuse_job, list(range(len(hr_reuse_pairs()))))
+
+
 def _outside_hr_fragment(t):
     """Array-value literals print their type, Array{Index, Element}(...); when a user sort occurs in it the text is
     outside the human-readable grammar (which names Bool / Int / Real / BV / Array only) - the property quantifies over
